@@ -11,7 +11,7 @@ import (
 func init() {
 	register(&propDef{
 		ID:          "C18",
-		Explanation: "Decides, for package lsp/jsonrpc2 (every function; go/cfg locksets and dominance, type-resolved): R1 every call of the Stream interface's Write holds one and the same write mutex of the connection (so whole frames are serialised) and all senders go through that one function; R2 in the framed stream's Write the length printed in the header is len() of the very byte slice passed to the following Write on the connection, with the Content-Length name and the blank-line separator as constants and no arithmetic on the length; R3 in the framed stream's Read the body buffer is make([]byte, length) with length parsed from the header, filled by io.ReadFull, on paths where length ≤ 0 and a missing header were rejected, and the header-line slice expressions are dominated by the `colon < 0` rejection; R4 in Call the reply channel is registered in the pending map (under its mutex) before the request is sent, has capacity ≥ 1, its removal is deferred, every access to the pending map holds its mutex, and the reader delivers a response only to the channel looked up by the response's own id; R5 the wait in Call selects on the reply and on ctx.Done(); also R3 the announced length has an upper bound before it sizes the allocation (a parse of at most 32 bits, or an explicit maximum test that dominates make), R4 the reply channel is made by the call itself (never recycled), and R6 DecodeMessage rejects no frame on a wire field that is optional (omitempty) and that this package's own encoder can leave null., R2 after a successful header write the body write follows on every path, and R7 no number parsed from the wire is narrowed by a conversion. NOT decided: all chunkings / schedules, JSON decoding of bodies.",
+		Explanation: "Decides, for package lsp/jsonrpc2 (every function; go/cfg locksets and dominance, type-resolved): R1 every call of the Stream interface's Write holds one and the same write mutex of the connection (so whole frames are serialised) and all senders go through that one function; R2 in the framed stream's Write the length printed in the header is len() of the very byte slice passed to the following Write on the connection, with the Content-Length name and the blank-line separator as constants and no arithmetic on the length; R3 in the framed stream's Read the body buffer is make([]byte, length) with length parsed from the header, filled by io.ReadFull, on paths where length ≤ 0 and a missing header were rejected, and the header-line slice expressions are dominated by the `colon < 0` rejection; R4 in Call the reply channel is registered in the pending map (under its mutex) before the request is sent, has capacity ≥ 1, its removal is deferred, every access to the pending map holds its mutex, and the reader delivers a response only to the channel looked up by the response's own id; R5 the wait in Call selects on the reply and on ctx.Done(); also R3 the announced length has an upper bound before it sizes the allocation (a parse of at most 32 bits, or an explicit maximum test that dominates make), R4 the reply channel is made by the call itself (never recycled), and R6 DecodeMessage rejects no frame on a wire field that is optional (omitempty) and that this package's own encoder can leave null., R2 after a successful header write the body write follows on every path, and R7 no number parsed from the wire is narrowed by a conversion. R8 no goroutine of package jsonrpc2 writes to a stream's transport below the write lock (a frame is complete before the sender releases the lock); R9 the select in which a call waits for its response has no exit besides the response and the caller's context. NOT decided: all chunkings / schedules, JSON decoding of bodies.",
 		Assumptions: []string{"io.ReadFull returns an error unless exactly len(buf) bytes were read", "sync.Mutex provides mutual exclusion"},
 		Trusted:     []string{"go/types", "x/tools go/packages, go/cfg"},
 		Run:         runC18,
@@ -22,6 +22,8 @@ func runC18(c *Ctx) {
 	c.load("./lsp/jsonrpc2")
 	decoderNotStricterThanEncoder(c, "C18.R6")
 	noNarrowingOfParsedNumbers(c, "C18.R7")
+	frameWritesAreSynchronous(c, "C18.R8")
+	responseWaitHasNoThirdExit(c, "C18.R9")
 	p := c.pkg("lsp/jsonrpc2")
 	info := p.TypesInfo
 	bodies := funcBodies(p)
@@ -1205,7 +1207,9 @@ func noNarrowingOfParsedNumbers(c *Ctx, rule string) {
 				return true
 			}
 			fn := calleeOf(info, call)
-			if fn == nil || !strings.HasPrefix(fullName(fn), "strconv.") {
+			// strconv parsers, and the numeric accessors of json.Number (a number decoded with UseNumber)
+			isJSONNumber := fn != nil && (fullName(fn) == "encoding/json.(Number).Int64" || fullName(fn) == "encoding/json.(Number).Float64")
+			if fn == nil || (!strings.HasPrefix(fullName(fn), "strconv.") && !isJSONNumber) {
 				return true
 			}
 			w := 64
@@ -1273,4 +1277,168 @@ func f(b []byte) int32 { n, _ := strconv.Atoi(string(b)); return int32(n) }
 	}
 	c.control(rule+":narrowing-conversion-detector", hit)
 	c.ok(rule, p.PkgPath+"|scanned", "", fmt.Sprintf("%d conversions of strconv-parsed numbers examined", n))
+}
+
+// frameWritesAreSynchronous: C18.R8 — a frame is on the wire, completely, before the sender gives up the write lock.
+// The connection serialises senders with a mutex around the stream's Write; that only works if Write returns after
+// the last byte was handed to the transport. A Write that performs the transport write in a goroutine and may return
+// early (on context cancellation) lets the next sender start its header in the middle of the abandoned frame
+// (`hdrA hdrB bodyB bodyA`), which corrupts the stream for good. Decided structurally: no `go` statement of package
+// jsonrpc2 runs code that writes to a stream's connection (conn.Write / the framed writer), directly or through a
+// package-local function.
+func frameWritesAreSynchronous(c *Ctx, rule string) {
+	p := c.pkg("lsp/jsonrpc2")
+	info := p.TypesInfo
+	// functions that write to a transport: a call X.Write(..) / fmt.Fprintf(X, ..) where X is a field of an
+	// io.Writer-like interface type (the stream's conn), or a call of such a function
+	writesTransport := map[types.Object]bool{}
+	isTransportWrite := func(call *ast.CallExpr) bool {
+		if se, ok := call.Fun.(*ast.SelectorExpr); ok && se.Sel.Name == "Write" {
+			if fs, ok := ast.Unparen(se.X).(*ast.SelectorExpr); ok {
+				if sel, ok := info.Selections[fs]; ok && sel.Kind() == types.FieldVal {
+					if _, isIface := sel.Type().Underlying().(*types.Interface); isIface {
+						return true
+					}
+				}
+			}
+		}
+		if fn := calleeOf(info, call); fn != nil && (fullName(fn) == "fmt.Fprintf" || fullName(fn) == "fmt.Fprint" || fullName(fn) == "io.WriteString") && len(call.Args) > 0 {
+			if fs, ok := ast.Unparen(call.Args[0]).(*ast.SelectorExpr); ok {
+				if sel, ok := info.Selections[fs]; ok && sel.Kind() == types.FieldVal {
+					if _, isIface := sel.Type().Underlying().(*types.Interface); isIface {
+						return true
+					}
+				}
+			}
+		}
+		return false
+	}
+	for changed := true; changed; {
+		changed = false
+		for _, fd := range allFuncDecls(p) {
+			obj := info.Defs[fd.Name]
+			if fd.Body == nil || writesTransport[obj] {
+				continue
+			}
+			ast.Inspect(fd.Body, func(n ast.Node) bool {
+				if call, ok := n.(*ast.CallExpr); ok {
+					if isTransportWrite(call) {
+						writesTransport[obj] = true
+						changed = true
+					} else if fn := calleeOf(info, call); fn != nil && fn.Pkg() == p.Types && writesTransport[fn] {
+						writesTransport[obj] = true
+						changed = true
+					}
+				}
+				return true
+			})
+		}
+	}
+	n, ngo := 0, 0
+	for _, fd := range allFuncDecls(p) {
+		if fd.Body == nil {
+			continue
+		}
+		ast.Inspect(fd.Body, func(x ast.Node) bool {
+			gs, ok := x.(*ast.GoStmt)
+			if !ok {
+				return true
+			}
+			ngo++
+			bad := ""
+			ast.Inspect(gs.Call, func(y ast.Node) bool {
+				if call, ok := y.(*ast.CallExpr); ok {
+					if isTransportWrite(call) {
+						bad = types.ExprString(call.Fun)
+					} else if fn := calleeOf(info, call); fn != nil && fn.Pkg() == p.Types && writesTransport[fn] {
+						// the handler goroutine of the read loop legitimately replies (conn.write takes the lock and completes the frame):
+						// only writers BELOW the lock are a problem — functions that are methods of the stream type itself
+						if sig := fn.Type().(*types.Signature); sig.Recv() != nil && strings.Contains(strings.ToLower(sig.Recv().Type().String()), "stream") {
+							bad = fn.Name()
+						}
+					}
+				}
+				return true
+			})
+			if bad != "" {
+				n++
+				c.viol(rule, fmt.Sprintf("%s|go#%d|writes-frame-asynchronously", funcKey(p, fd), n), c.pos(gs.Pos()),
+					fmt.Sprintf("%s starts a goroutine that writes to the stream's transport (%s): the function can return — and its caller release the write lock — while the frame is only partly written, so the next sender's header lands inside this frame and every later message on the connection is unreadable", fd.Name.Name, bad))
+			}
+			return true
+		})
+	}
+	c.ok(rule, p.PkgPath+"|no-asynchronous-frame-writes", "", fmt.Sprintf("%d go statements, %d functions that write to a transport; no goroutine writes below the write lock", ngo, len(writesTransport)))
+	c.control(rule+":transport-writers-found", len(writesTransport) >= 1)
+}
+
+// responseWaitHasNoThirdExit: C18.R9 — a call that was written waits for exactly two things: its response, or its
+// caller's context. The read loop delivers the response into the call's channel BEFORE it can observe the
+// connection's end, so a further select case on a connection-lifetime channel (done / closed) races with a response
+// that has already arrived: select picks at random among ready cases, and the caller is told "connection closed" for
+// a call that was answered. Decided on the select statement of Call that receives from the per-call channel: its other
+// cases receive only from ctx.Done().
+func responseWaitHasNoThirdExit(c *Ctx, rule string) {
+	p := c.pkg("lsp/jsonrpc2")
+	info := p.TypesInfo
+	n := 0
+	for _, fd := range allFuncDecls(p) {
+		if fd.Body == nil {
+			continue
+		}
+		ast.Inspect(fd.Body, func(x ast.Node) bool {
+			sel, ok := x.(*ast.SelectStmt)
+			if !ok {
+				return true
+			}
+			// a case that receives a *Response (the per-call channel)
+			receivesResponse := false
+			for _, cl := range sel.Body.List {
+				cc := cl.(*ast.CommClause)
+				if cc.Comm == nil {
+					continue
+				}
+				ast.Inspect(cc.Comm, func(y ast.Node) bool {
+					if ue, ok := y.(*ast.UnaryExpr); ok && ue.Op == token.ARROW {
+						if ch, ok := info.TypeOf(ue.X).Underlying().(*types.Chan); ok && strings.HasSuffix(ch.Elem().String(), "jsonrpc2.Response") {
+							receivesResponse = true
+						}
+					}
+					return true
+				})
+			}
+			if !receivesResponse {
+				return true
+			}
+			n++
+			bad := ""
+			for _, cl := range sel.Body.List {
+				cc := cl.(*ast.CommClause)
+				if cc.Comm == nil {
+					bad = "a default case (the wait does not block)"
+					continue
+				}
+				txt := ""
+				isResp := false
+				ast.Inspect(cc.Comm, func(y ast.Node) bool {
+					if ue, ok := y.(*ast.UnaryExpr); ok && ue.Op == token.ARROW {
+						txt = types.ExprString(ue.X)
+						if ch, ok := info.TypeOf(ue.X).Underlying().(*types.Chan); ok && strings.HasSuffix(ch.Elem().String(), "jsonrpc2.Response") {
+							isResp = true
+						}
+					}
+					return true
+				})
+				if isResp || strings.HasSuffix(txt, ".Done()") && strings.Contains(txt, "ctx") {
+					continue
+				}
+				bad = "a case on " + txt
+			}
+			c.check(bad == "", rule, fmt.Sprintf("%s|response-wait#%d|only-response-or-context", funcKey(p, fd), n), c.pos(sel.Pos()), "the wait ends with the response or with the caller's context, nothing else",
+				fmt.Sprintf("%s waits for the response in a select that also has %s: when the peer answers and closes the connection at once, both cases are ready and the select takes either at random — a call that was answered is reported as failed (the response is dropped)", fd.Name.Name, bad))
+			return true
+		})
+	}
+	c.count("response_waits", n)
+	c.floor(rule, 1)
 }
